@@ -543,6 +543,39 @@ def main():
         for l in gen_c05(rng, n): print(l)
     elif fam == "td":
         for l in gen_td(rng, n): print(l)
+    elif fam == "capis":
+        # streaming content handlers (outside the Coq model): C API run vs Rust API run only
+        UT = ["\u00e9", "\u4e2d\u6587", "\U0001f600", "a&b<c>", "plain", "x\u00e9y"]
+        for i in range(n):
+            data = l2_doc(rng)
+            toks = []
+            for _ in range(rng.choice([1, 1, 2])):
+                css, st = rng.choice([("div", "T" + hx("div")), ("p", "T" + hx("p")), ("*", "A"), ("span, a", "T%s|T%s" % (hx("span"), hx("a"))), ("b", "T" + hx("b"))])
+                ops = []
+                for _ in range(rng.choice([1, 1, 2])):
+                    frags = []
+                    for _ in range(rng.randrange(1, 4)):
+                        b = rng.choice(UT).encode("utf-8")
+                        c = rng.randrange(10)
+                        if c < 4: frags.append("u" + b.hex())
+                        elif c < 8:
+                            k = rng.randrange(0, len(b) + 1); frags.append("u" + b[:k].hex())
+                            if rng.randrange(3) == 0: frags.append(rng.choice(["u", "s", "s" + b"ok".hex(), "u" + b"ascii".hex()]))     # something while a character is incomplete
+                            if rng.randrange(6): frags.append("u" + b[k:].hex())
+                        elif c < 9: frags.append("s" + b.hex())
+                        else: frags.append("u" + bytes([rng.randrange(0x80, 0x100)]).hex())
+                    ops.append("ss:%s%s:%s" % (rng.choice("bapeir"), rng.choice("ht"), ";".join(f for f in frags if len(f) > 0)))
+                toks.append("sel=%s~%s~%s~-~-" % (hx(css), st, ",".join(ops)))
+            ch = chunkings(rng, data)
+            print("L2 ks%d nomodel=1 isz=104 strict=0 %s ops=%s" % (i, " ".join(toks), ",".join(["W" + c.hex() for c in ch] + ["E"])))
+    elif fam == "capi":
+        import re as _re
+        for prof, share in (("mixed", 4), ("edit", 3), ("fail", 2), ("match", 1)):
+            k = 0
+            for l in gen_l2(rng, 3 * n, prof, "k" + prof[0]):
+                if " bail=" in l or " bh=1" in l or _re.search(r"(sb:|sf:|sr:|[~,]sx|[(+]rp:)", l): continue
+                print(l); k += 1
+                if k >= max(1, n * share // 10): break
     elif fam == "enc":
         for l in gen_enc(rng, n): print(l)
     elif fam == "c04":
